@@ -120,7 +120,15 @@ fn run_python(pymod: &str, cases: &[String], work: &str, tag: &str) -> (Vec<Stri
 }
 
 pub fn run_c13(tier: &str, seed: u64, model: &Model, corpus_lines: Vec<String>, pymod: &str, work: &str) -> Report {
-    let mut rep = Report::new("C13");
+    run_py("C13", None, tier, seed, model, corpus_lines, pymod, work)
+}
+
+/// `only`: restrict the generated cases to these operations (C11 runs the CGR part of the binding)
+pub fn run_py(pid: &str, only: Option<&[&str]>, tier: &str, seed: u64, model: &Model, corpus_lines: Vec<String>, pymod: &str, work: &str) -> Report {
+    let mut rep = Report::new(pid);
+    if sharded() {
+        return rep;
+    }
     rep.rules.push("cases: Python strings (ASCII nucleotide text, mixed case, ambiguous bytes, control characters, arbitrary unicode incl. non-BMP, NBSP, full-width letters) for the k-mer and minimiser iterators (also after `del s; gc.collect()` and heap churn), to_acgt, OligoComputer.vectorise_one (norm, raw, default argument) / vectorise_batch (0..thousands of strings) / get_header, CgrComputer.vectorise_one / vectorise_batch (ValueError on a bad nucleotide); the module is built from the working tree; compared: Python result (floats as bit patterns) vs the Rust core called in-process (the property) and vs the separately transcribed Lean model of the binding; non-trivial = distinct case whose result is non-empty".into());
     let mut rng = Rng::new(seed);
     let oligos = Oligos::new(8);
@@ -190,8 +198,16 @@ pub fn run_c13(tier: &str, seed: u64, model: &Model, corpus_lines: Vec<String>, 
                     format!("cbatch {} {}", sz, if ss.is_empty() { "~".to_string() } else { ss.join(",") })
                 }
             };
+            if let Some(ops) = only {
+                if !ops.contains(&line.split_whitespace().next().unwrap_or("")) {
+                    continue;
+                }
+            }
             cases.push(line);
         }
+    }
+    if cases.is_empty() {
+        return rep;
     }
     // python side (one interpreter; on a crash bisect by halves to find the case)
     let (mut py, crash) = run_python(pymod, &cases, work, &format!("{}", seed));
